@@ -72,6 +72,10 @@ func (u *CacheOnReadFs) cacheStatus(name string) (state cacheState, fi os.FileIn
 }
 
 func (u *CacheOnReadFs) copyToLayer(name string) error {
+	// a directory is not copied like a file: make it in the layer
+	if fi, err := u.base.Stat(name); err == nil && fi.IsDir() {
+		return u.layer.MkdirAll(name, fi.Mode().Perm())
+	}
 	return copyToLayer(u.base, u.layer, name)
 }
 
